@@ -213,3 +213,24 @@ Example C07_nonvacuous :
   | _ => False
   end.
 Proof. vm_compute. repeat split. Qed.
+
+(* Tie of the hand-written constants of Keystore/Model.v to the source.  Gen/Consts.v is regenerated
+   on every run by the translator harness/cmd/gen_consts from the `const` declarations of
+   pkg/keystorev3/{wallet,walletfile,scrypt,pbkdf2}.go as they are NOW (nLight = 1 << 12 is
+   evaluated by the translator).  The model keeps its own literals; this theorem is what breaks when
+   a scrypt preset, the version, the derived key length or a cipher / kdf / prf name changes in the
+   source. *)
+From FFS Require Gen.Consts.
+Theorem C07_source_constants :
+  Gen.Consts.keystorev3_nLight = Keystore.Model.nLight /\
+  Gen.Consts.keystorev3_nStandard = Keystore.Model.nStandard /\
+  Gen.Consts.keystorev3_pDefault = Keystore.Model.pDefault /\
+  Gen.Consts.keystorev3_defaultR = Keystore.Model.defaultR /\
+  Gen.Consts.keystorev3_version3 = Keystore.Model.version3 /\
+  Gen.Consts.keystorev3_derivedKeyLen = Keystore.Model.derivedKeyLen /\
+  ascii_bytes Gen.Consts.keystorev3_cipherAES128ctr = Keystore.Model.cipherAES128ctr /\
+  ascii_bytes Gen.Consts.keystorev3_kdfTypeScrypt = Keystore.Model.kdfTypeScrypt /\
+  ascii_bytes Gen.Consts.keystorev3_kdfTypePbkdf2 = Keystore.Model.kdfTypePbkdf2 /\
+  ascii_bytes Gen.Consts.keystorev3_prfHmacSHA256 = Keystore.Model.prfHmacSHA256.
+Proof. vm_compute. repeat split; reflexivity. Qed.
+Print Assumptions C07_source_constants.
